@@ -29,12 +29,16 @@ STRINGS = ["a", "b", "ab", "x y", " lead", "trail ", "q\"uote", "it's", "line1\n
            u"αβ", u"\U0001F600", "a<b&c>d", "back\\slash", "tab\there", "1", "1.5", "true",
            "2020-01-02", "[a,b]", "(1;2)", "http://x.org/a#b", "{curly}", "per%cent", "semi;colon",
            "''", "\"\"\"", "a\n\nb", "\\n", "_:b0", "<tag>", "@en", "^^"]
+# (round 2) other line breaks than \n, whitespace-only text, text that looks like a Python constant
+STRINGS += ["\r", "a\r\nb", u"a\x85b", u"a\u2028b", u"a\u2029b", " ", "None", "nan", u"\ufeffx", u"e\u0301"]
 NAMES = ["a", "b", "ab", "c", "name one", u"näme", "x\"y"]
 TYPES = ["cell", "analysis", "setup/daq", "custom", "n.s.", "mytype", "subject", "recording", u"tüp"]
 URLS = ["http://x.org/t.xml", "https://terms.example/v1/t.xml", "http://x.org/other.xml"]
 FLOATS = [0.5, 0.30000000000000004, 1.5, 1e20, 1e-7, 123456.789, 2.0, -0.1, 0.1 + 0.7, 5e-324,
           1.7976931348623157e308, 3.141592653589793, 1e16, 0.0, -0.0, 100.0, 0.25, 1234567.0, 12345678.0]
 INTS = [0, 1, -3, 7, 10 ** 30, -(10 ** 19), 2 ** 63, 42, 1000000]
+# (round 2) floats as values: the non-finite ones as well (not as uncertainties: nan != nan)
+VFLOATS = FLOATS + [float("inf"), float("-inf"), float("nan"), 1e-320, 9007199254740993.0]
 
 
 # ----------------------------------------------------------------------------- value encoding
@@ -123,7 +127,7 @@ def build_prop(spec, parent):
     if spec.get("uncertainty") is not None:
         kw["uncertainty"] = dec_val(spec["uncertainty"])
     vals = [dec_val(v) for v in spec.get("values", [])]
-    return odml.Property(name=spec["name"], values=vals if vals else None, parent=parent, **kw)
+    return odml.Property(name=spec.get("name"), values=vals if vals else None, parent=parent, **kw)
 
 
 def build_sec(spec, parent):
@@ -132,7 +136,7 @@ def build_sec(spec, parent):
     for k in ("definition", "reference", "repository"):
         if spec.get(k) is not None:
             kw[k] = spec[k]
-    sec = odml.Section(name=spec["name"], type=spec.get("type", "n.s."), parent=parent, **kw)
+    sec = odml.Section(name=spec.get("name"), type=spec.get("type", "n.s."), parent=parent, **kw)
     for p in spec.get("props", []):
         build_prop(p, sec)
     for s in spec.get("subs", []):
@@ -256,6 +260,44 @@ def canon_graph(graph, value_pred):
     return triples, text
 
 
+def canon_triples_multi(graph, value_pred, shorten=False):
+    """(round 2) set of canonical triples (as JSON text) of a graph that may hold several value nodes
+    per Property - a writer that converted more than once leaves one per conversion. A value node is
+    named by its Property and its content, so identical copies coincide and differing ones stay apart;
+    terminology nodes are named by their url as in canon_graph. shorten=True: doubles as turtle / n3
+    write them (7 significant digits), to compare texts of different serialisations."""
+    from rdflib import URIRef, Literal, BNode
+    from rdflib.namespace import RDF
+    ren = {}
+
+    def plain(x):
+        if isinstance(x, Literal):
+            lit = norm_literal(x)
+            if shorten and lit[2] == XSD + "double":
+                try:
+                    lit[1] = repr(float("%e" % float(lit[1])))
+                except ValueError:
+                    pass
+            return lit
+        return ["i", str(x)]
+    for s, _p, o in graph.triples((None, URIRef(value_pred), None)):
+        if isinstance(o, (URIRef, BNode)) and isinstance(s, URIRef) and str(s).startswith(NS):
+            content = sorted([str(pp), plain(x)] for pp, x in graph.predicate_objects(o))
+            ren[o] = ["q", str(s)[len(NS):], content]
+    for _s, _p, o in graph.triples((URIRef(NS + "Hub"), URIRef(NS + "hasTerminology"), None)):
+        types = sorted(str(t) for t in graph.objects(o, RDF.type))
+        if types:
+            ren[o] = ["t", types[0]]
+
+    def term(x):
+        if x in ren:
+            return ren[x]
+        if isinstance(x, BNode):
+            return ["b", str(x)]
+        return plain(x)
+    return set(fw.canon([term(s), term(p), term(o)]) for s, p, o in graph)
+
+
 def default_subclasses():
     try:
         from odml.tools.rdf_converter import load_rdf_subclasses
@@ -288,19 +330,33 @@ class C10(fw.Check):
         "rdflib: Graph as a set of triples, serialise/parse per format, Literal <-> Python value (validated per case, breaches reported)",
     ]
     assumptions = [
-        "documents carry no link/include (finalize is the identity); ids are canonical uuid strings",
+        "in the streams tied to the model documents carry no link/include (finalize is the identity); ids are "
+        "canonical uuid strings. Documents with resolved links, writers / readers used more than once and the "
+        "run in another process are judged by the implementation-level oracle alone",
         "repository URLs are not IRIs of RDF classes occurring in the graph",
         "values conform to their dtype (C05), so Property(values=..., dtype=...) keeps imported values",
     ]
     rule = ("random small document sets (1-3 documents, depth <= 3, <= 3 children per kind, <= 4 values) "
             "x {xml, nt, json-ld, turtle, n3} x sub-classing on/off/custom x string/file/ODMLWriter entry; "
             "values of every dtype incl. full-precision floats, big ints, tuples, text with quotes/newlines/"
-            "non-ASCII. Non-trivial = at least one Section and one Property with values; distinct = distinct "
-            "canonical JSON of the case.")
+            "non-ASCII (since round 2: 0-12 values, non-finite floats, years < 1000, fractions of seconds, \\r / NEL / "
+            "U+2028 / whitespace-only text, unnamed objects, empty document lists). Round 2 adds: the other entry "
+            "points (a Document instead of a list, RDFReader(file, fmt).to_odml(), ODMLReader.from_file, odml.save, "
+            "file names that already carry the extension / non-ASCII / blank); histories of ONE writer (2-3 exports "
+            "through get_rdf_str / write_file / convert_to_rdf / str(), refused calls in between, the documents "
+            "grow, change, shrink or carry links in between); one reader used twice; a run in another process "
+            "(locale C, other hash seed). Non-trivial = at least one Section and one Property with values (history: "
+            "at least one edit took effect); distinct = distinct canonical JSON of the case.")
     quick_n = 400
     thorough_n = 7000
 
     # -- generation ----------------------------------------------------------
+    @staticmethod
+    def gen_year(rng):
+        # (round 2) years below 1000 as well: four-digit zero padded in ISO text
+        return rng.choice([rng.randrange(1000, 3000), rng.randrange(1000, 3000), rng.randrange(1000, 3000),
+                           rng.randrange(1, 1000)])
+
     def gen_values(self, rng):
         kind = rng.choice(["string", "int", "float", "boolean", "date", "time", "datetime", "tuple",
                            "text", "url", "person", "none", "float", "string", "int"])
@@ -318,20 +374,20 @@ class C10(fw.Check):
         if kind == "int":
             return kind, [enc_val(rng.choice(INTS + [rng.randrange(-10 ** 6, 10 ** 25)])) for _ in range(n)]
         if kind == "float":
-            return kind, [enc_val(rng.choice(FLOATS + [rng.random(), rng.uniform(-1e6, 1e6),
+            return kind, [enc_val(rng.choice(VFLOATS + [rng.random(), rng.uniform(-1e6, 1e6),
                                                        round(rng.uniform(0, 100), 2)])) for _ in range(n)]
         if kind == "boolean":
             return kind, [rng.choice([True, False]) for _ in range(n)]
         if kind == "date":
-            return kind, [{"d": "%04d-%02d-%02d" % (rng.randrange(1000, 3000), rng.randrange(1, 13),
+            return kind, [{"d": "%04d-%02d-%02d" % (self.gen_year(rng), rng.randrange(1, 13),
                                                     rng.randrange(1, 29))} for _ in range(n)]
         if kind == "time":
-            return kind, [{"t": "%02d:%02d:%02d" % (rng.randrange(24), rng.randrange(60), rng.randrange(60))}
-                          for _ in range(n)]
+            return kind, [{"t": "%02d:%02d:%02d" % (rng.randrange(24), rng.randrange(60), rng.randrange(60))
+                           + rng.choice(["", "", "", ".000456", ".5"])} for _ in range(n)]
         if kind == "datetime":
             return kind, [{"dt": "%04d-%02d-%02dT%02d:%02d:%02d" % (
-                rng.randrange(1000, 3000), rng.randrange(1, 13), rng.randrange(1, 29), rng.randrange(24),
-                rng.randrange(60), rng.randrange(60))} for _ in range(n)]
+                self.gen_year(rng), rng.randrange(1, 13), rng.randrange(1, 29), rng.randrange(24),
+                rng.randrange(60), rng.randrange(60)) + rng.choice(["", "", "", ".000789"])} for _ in range(n)]
         k = rng.randrange(2, 4)
         return "%d-tuple" % k, ["(%s)" % ";".join(rng.choice(["1", "2", "30", "x", "1.5", "a b"])
                                                    for _ in range(k)) for _ in range(n)]
@@ -347,6 +403,8 @@ class C10(fw.Check):
             unc = enc_val(rng.choice(FLOATS))
         elif r < 0.35:
             unc = enc_val(rng.choice([1, 2, 0]))
+        if rng.random() < 0.04:
+            name = None       # (round 2) an unnamed Property is named by its id
         return {"name": name, "dtype": dtype, "values": vals, "unit": self.opt(rng, ["mV", "s", u"µm", ""]),
                 "uncertainty": unc, "definition": self.opt(rng, STRINGS), "reference": self.opt(rng, STRINGS),
                 "value_origin": self.opt(rng, STRINGS + ["file.dat"])}
@@ -356,19 +414,21 @@ class C10(fw.Check):
         rng.shuffle(names)
         nprops = rng.choice([0, 1, 1, 2, 3])
         nsubs = 0 if depth >= 3 else rng.choice([0, 0, 1, 2, 3] if depth < 2 else [0, 0, 1])
+        if rng.random() < 0.04:
+            name = None       # (round 2) an unnamed Section is named by its id
         return {"name": name, "type": rng.choice(TYPES), "definition": self.opt(rng, STRINGS),
                 "reference": self.opt(rng, STRINGS), "repository": self.opt(rng, URLS, 0.15),
                 "props": [self.gen_prop(rng, names[i]) for i in range(nprops)],
                 "subs": [self.gen_sec(rng, names[i], depth + 1) for i in range(nsubs)]}
 
-    def gen_doc(self, rng):
+    def gen_doc(self, rng, small=False):
         names = list(NAMES)
         rng.shuffle(names)
-        nsecs = rng.choice([0, 1, 1, 2, 3])
+        nsecs = rng.choice([0, 1, 1, 2] if small else [0, 1, 1, 2, 3])
         return {"author": self.opt(rng, STRINGS), "version": self.opt(rng, ["1", "v1.2", u"é"]),
-                "date": self.opt(rng, ["2020-01-02", "1999-12-31"]), "repository": self.opt(rng, URLS, 0.2),
+                "date": self.opt(rng, ["2020-01-02", "1999-12-31", "0987-06-05"]), "repository": self.opt(rng, URLS, 0.2),
                 "origin": self.opt(rng, ["file.xml"], 0.1),
-                "secs": [self.gen_sec(rng, names[i], 1) for i in range(nsecs)]}
+                "secs": [self.gen_sec(rng, names[i], 2 if small else 1) for i in range(nsecs)]}
 
     def generate(self, tier, rng):
         n = self.quick_n if tier == "quick" else self.thorough_n
@@ -386,16 +446,121 @@ class C10(fw.Check):
             cases.append({"stream": "rt", "docs": [self.gen_doc(rng) for _ in range(ndocs)],
                           "fmt": FORMATS[i % len(FORMATS)], "subclassing": mode != "off", "custom": custom,
                           "entry": entry})
+        cases += self.generate_round2(tier, rng)
         for fmt in ["xml", "turtle", "nt", "json-ld", "n3", "pretty-xml", "trig", "bogus", "", "XML", "rdf"]:
             cases.append({"stream": "format", "fmt": fmt})
         for custom in [{"a": "B C"}, {"a": "B", "c": "D\tE"}, {"a": "B\n"}, {"cell": "X"}, {"k": u"A B"}]:
             cases.append({"stream": "custom", "custom": custom})
         return cases
 
+    # -- generation, round 2: entry points, object histories, process state -----
+    MORE_ENTRIES = ["single", "ctor", "oreader", "save", "file:ext", "file:extdir", "file:extmid",
+                    "file:nonascii", "file:space"]
+
+    def generate_round2(self, tier, rng):
+        quick = tier == "quick"
+        cases = []
+        # (a) the remaining public entry points and argument shapes of a one-shot export / import
+        for i in range(27 if quick else 600):
+            entry = self.MORE_ENTRIES[i % len(self.MORE_ENTRIES)]
+            ndocs = rng.choice([1, 1, 2, 0])
+            mode = rng.choice(["on", "off", "custom", "custom-off"])
+            custom = {}
+            if mode.startswith("custom"):
+                custom = rng.choice([{"custom": "Custom"}, {"cell": "MyCell", "mytype": "Mine"},
+                                     {"n.s.": "Unspecified"}, {u"tüp": u"Tüp"}])
+            if entry == "save":
+                ndocs, mode, custom = 1, "on", {}
+            if entry == "single":
+                ndocs = 1
+            cases.append({"stream": "rt", "docs": [self.gen_doc(rng, small=quick) for _ in range(ndocs)],
+                          "fmt": FORMATS[(i // len(self.MORE_ENTRIES) + i) % len(FORMATS)],
+                          "subclassing": mode in ("on", "custom"), "custom": custom, "entry": entry})
+        # (b) one writer, several exports, the documents change in between
+        kinds = ["grow", "grow", "edit", "grow", "link", "grow", "edit", "grow", "link"]
+        for i in range(36 if quick else 630):
+            cases.append(self.gen_hist(rng, kinds[i % len(kinds)], FORMATS[i % len(FORMATS)]))
+        # (c) one reader, several imports
+        for i in range(8 if quick else 60):
+            cases.append({"stream": "rreuse", "fmt": FORMATS[i % len(FORMATS)],
+                          "a": [self.gen_doc(rng, small=True) for _ in range(rng.choice([1, 1, 2]))],
+                          "b": [self.gen_doc(rng, small=True) for _ in range(rng.choice([1, 1, 2]))],
+                          "between": rng.choice([None, None, "garbage", "same"]),
+                          "entry": rng.choice(["string", "file", "oreader"])})
+        # (d) another process: C locale (ASCII default encoding), another hash seed
+        for i in range(2 if quick else 6):
+            cases.append({"stream": "proc", "fmt": FORMATS[rng.randrange(len(FORMATS))],
+                          "docs": [self.gen_doc(rng, small=True) for _ in range(rng.choice([1, 2]))],
+                          "hashseed": rng.randrange(1, 1000), "marker": u"Köln \u03b1\u03b2 \U0001F600"})
+        return cases
+
+    GROW_OPS = ["add_prop", "add_prop", "add_prop", "add_sec", "add_sec", "set_attr", "set_attr", "add_doc",
+                "fill_values"]
+    EDIT_OPS = ["set_attr!", "rename", "retype", "remove_prop", "remove_sec", "rev_values", "dup_value",
+                "drop_value", "set_attr!", "add_prop", "add_sec"]
+
+    def gen_path(self, rng):
+        return [rng.randrange(6) for _ in range(rng.choice([1, 2, 2, 3, 3, 4]))]
+
+    def gen_edit(self, rng, op):
+        e = {"op": op.rstrip("!"), "at": self.gen_path(rng)}
+        if op in ("add_prop",):
+            e["spec"] = self.gen_prop(rng, rng.choice(NAMES + ["new", "temperature"]))
+        elif op == "add_sec":
+            e["spec"] = self.gen_sec(rng, rng.choice(NAMES + ["new", "stimulus"]), 2)
+        elif op == "add_doc":
+            e["spec"] = self.gen_doc(rng)
+        elif op in ("set_attr", "set_attr!"):
+            e["prop"] = rng.choice([None, 0, 1, 2])
+            e["attr"] = rng.randrange(6)
+            e["value"] = rng.choice([x for x in STRINGS if x.strip()])
+            e["overwrite"] = op.endswith("!")
+        elif op == "rename":
+            e["prop"] = rng.choice([None, 0, 1])
+            e["name"] = rng.choice(["renamed", u"r\u00e9", "z z"])
+        elif op == "retype":
+            e["type"] = rng.choice(TYPES)
+        elif op in ("remove_prop", "rev_values", "dup_value", "drop_value", "fill_values"):
+            e["prop"] = rng.randrange(3)
+        return e
+
+    def gen_hist(self, rng, kind, fmt):
+        ndocs = rng.choice([1, 1, 2])
+        docs = []
+        for _ in range(ndocs):
+            d = self.gen_doc(rng)
+            names = list(NAMES)
+            rng.shuffle(names)
+            d["secs"] = [self.gen_sec(rng, names[i], 2) for i in range(rng.choice([1, 2, 2, 3]))]
+            docs.append(d)
+        mode = rng.choice(["on", "on", "off", "custom"])
+        custom = rng.choice([{"custom": "Custom"}, {"cell": "MyCell"}]) if mode == "custom" else {}
+        links = []
+        if kind == "link":
+            links = [{"at": self.gen_path(rng), "to": self.gen_path(rng)} for _ in range(rng.choice([1, 1, 2]))]
+        nsteps = rng.choice([2, 2, 3]) if kind != "link" else rng.choice([1, 2, 2])
+        steps = []
+        for k in range(nsteps):
+            edits = []
+            if k > 0 or rng.random() < 0.2:
+                ops = self.EDIT_OPS if kind == "edit" else self.GROW_OPS
+                edits = [self.gen_edit(rng, rng.choice(ops)) for _ in range(rng.choice([1, 2, 3]))]
+            steps.append({"edits": edits, "fmt": fmt if rng.random() < 0.6 else rng.choice(FORMATS),
+                          "entry": rng.choice(["string", "string", "file", "convert", "str"]),
+                          "refused": rng.choice([None, None, None, "badfmt", "nodir"])})
+        return {"stream": "hist", "kind": kind, "docs": docs, "links": links, "subclassing": mode != "off",
+                "custom": custom, "steps": steps}
+
     # -- implementation ------------------------------------------------------
     def impl(self, case):
         _quiet_terminology()
         st = case["stream"]
+        if st == "hist":
+            return self.impl_hist(case)
+        if st == "rreuse":
+            return self.impl_rreuse(case)
+        if st == "proc":
+            return self.impl_proc(case)
         if st == "format":
             return self.impl_format(case)
         if st == "custom":
@@ -420,10 +585,22 @@ class C10(fw.Check):
         from odml.tools.rdf_converter import RDFWriter
         try:
             w = RDFWriter([odml.Document()], custom_subclasses=dict(case["custom"]))
-            return {"outcome": "ok", "map": sorted(w.section_subclasses.items()),
-                    "default": sorted(default_subclasses().items())}
+            out = {"outcome": "ok", "map": sorted(w.section_subclasses.items()),
+                   "default": sorted(default_subclasses().items())}
         except Exception as exc:
-            return {"outcome": fw.exc_name(exc), "default": sorted(default_subclasses().items())}
+            out = {"outcome": fw.exc_name(exc), "default": sorted(default_subclasses().items())}
+        # (round 2) the next writer, created without a custom map, against the yaml file itself
+        try:
+            import yaml
+            path = os.path.join(os.path.dirname(odml.__file__), "resources", "section_subclasses.yaml")
+            with open(path) as fh:
+                declared = yaml.safe_load(fh) or {}
+            out["yaml"] = sorted([k, v] for k, v in declared.items())
+            out["after"] = sorted([k, v] for k, v in RDFWriter([odml.Document()]).section_subclasses.items())
+        except Exception:
+            out.pop("yaml", None)
+            out.pop("after", None)
+        return out
 
     def impl_rt(self, case):
         import warnings
@@ -443,18 +620,60 @@ class C10(fw.Check):
         obs["graph"], _ = canon_graph(graph, value_pred)
         obs["shape"] = self.shape_facts(graph, docs, kw)
         tmp = None
+        entry = case["entry"]
+        path = None
         try:
-            if case["entry"] == "file":
+            if entry == "file":
                 tmp = tempfile.mkdtemp(prefix="c10_")
                 base = os.path.join(tmp, "out")
                 RDFWriter(docs, **kw).write_file(base, fmt)
                 path = base + EXT[fmt]
-                with open(path, encoding="utf-8") as fh:
+                # newline="": the text as written (a lone \r in a literal is not a line end to translate)
+                with open(path, encoding="utf-8", newline="") as fh:
                     text = fh.read()
-            elif case["entry"] == "parser":
+            elif entry in ("ctor", "oreader") or entry.startswith("file:") or entry == "save":
+                # (round 2) the other ways to a file: a name that already carries the extension (at the
+                # end, in the middle, in a directory name), non-ASCII / blank in the name, odml.save;
+                # whatever the name becomes, exactly one file has to appear and it is read back
+                tmp = tempfile.mkdtemp(prefix="c10_")
+                ext = EXT[fmt]
+                rel = {"file:ext": "out" + ext, "file:extdir": os.path.join("d" + ext + ".d", "out"),
+                       "file:extmid": "out" + ext + ".bak", "file:nonascii": u"aus\u00e9\u03b1",
+                       "file:space": "my out"}.get(entry, "out")
+                base = os.path.join(tmp, rel)
+                if os.path.dirname(base) != tmp:
+                    os.makedirs(os.path.dirname(base))
+                saved = False
+                if entry == "save":
+                    import odml
+                    try:
+                        from odml.validation import Validation
+                        saved = not any(e.is_error for e in Validation(docs[0]).errors)
+                    except Exception:
+                        saved = False
+                    # odml.save refuses documents with validation errors; those go the plain way
+                    if saved:
+                        odml.save(docs[0], base, "RDF", rdf_format=fmt)
+                obs["saved"] = saved
+                if not saved:
+                    RDFWriter(docs, **kw).write_file(base, fmt)
+                found = []
+                for root, _dirs, files in os.walk(tmp):
+                    found += [os.path.join(root, f) for f in files]
+                obs["files"] = len(found)
+                if len(found) != 1:
+                    obs["original_raw"] = [self.raw_doc(d) for d in docs]
+                    return obs
+                path = found[0]
+                with open(path, encoding="utf-8", newline="") as fh:
+                    text = fh.read()
+            elif entry == "parser":
                 from odml.tools.odmlparser import ODMLWriter
                 text = ODMLWriter("RDF").to_string(docs[0], rdf_format=fmt)
-            elif case["entry"] == "reuse":
+            elif entry == "single":
+                # (round 2) a Document instead of a list of Documents
+                text = RDFWriter(docs[0], **kw).get_rdf_str(fmt)
+            elif entry == "reuse":
                 # one writer asked twice (another serialisation first): the second text must still
                 # import to the exported documents
                 writer = RDFWriter(docs, **kw)
@@ -466,9 +685,14 @@ class C10(fw.Check):
             parsed = rdflib.Graph().parse(data=text, format=fmt)
             obs["graph_parsed"], rename = canon_graph(parsed, value_pred)
             try:
-                if case["entry"] == "file":
+                if entry == "ctor":
+                    back = RDFReader(path, fmt).to_odml()
+                elif entry in ("oreader", "save"):
+                    from odml.tools.odmlparser import ODMLReader
+                    back = ODMLReader("RDF", show_warnings=False).from_file(path, fmt)
+                elif path is not None:
                     back = RDFReader().from_file(path, fmt)
-                elif case["entry"] == "parser":
+                elif entry == "parser":
                     from odml.tools.odmlparser import ODMLReader
                     back = ODMLReader("RDF", show_warnings=False).from_string(text, fmt)
                 else:
@@ -482,6 +706,392 @@ class C10(fw.Check):
             if tmp:
                 shutil.rmtree(tmp, ignore_errors=True)
         obs["original_raw"] = [self.raw_doc(d) for d in docs]
+        return obs
+
+    # -- round 2: one writer, a history of edits and exports -------------------
+    @staticmethod
+    def resolve(docs, at):
+        """path of small numbers -> Document or Section (indices wrap around, a path stops early
+        where there are no further sub-sections)"""
+        cur = docs[at[0] % len(docs)]
+        for i in at[1:]:
+            secs = list(cur.sections)
+            if not secs:
+                break
+            cur = secs[i % len(secs)]
+        return cur
+
+    @staticmethod
+    def free_name(name, siblings):
+        taken = set(x.name for x in siblings)
+        if name is None or name not in taken:
+            return name
+        n = 2
+        while "%s %d" % (name, n) in taken:
+            n += 1
+        return "%s %d" % (name, n)
+
+    def apply_edit(self, docs, e, grow_only, writer=None):
+        """-> None (not applicable here, nothing done) | False (something was added, nothing that had
+        been there before changed) | True (an attribute / name / type / value list that may already
+        have been exported changed, or an object was removed)"""
+        import odml
+        op = e["op"]
+        if op == "add_doc":
+            # a further document is handed to the writer through its public list of documents
+            # (weaker reading: a writer may keep a list of its own instead of the caller's)
+            held = getattr(writer, "docs", None)
+            if not isinstance(held, list):
+                return None
+            new = build_doc(e["spec"])
+            held.append(new)
+            if held is not docs:
+                docs.append(new)
+            return False
+        cur = self.resolve(docs, e["at"])
+        is_doc = isinstance(cur, odml.doc.BaseDocument)
+
+        def the_prop():
+            if is_doc:
+                return None
+            props = list(cur.properties)
+            return props[e["prop"] % len(props)] if props else None
+        if op == "add_sec":
+            spec = dict(e["spec"])
+            spec["name"] = self.free_name(spec.get("name"), cur.sections)
+            build_sec(spec, cur)
+            return False
+        if op == "add_prop":
+            if is_doc:
+                if not len(cur.sections):
+                    return None
+                cur = cur.sections[0]
+            spec = dict(e["spec"])
+            spec["name"] = self.free_name(spec.get("name"), cur.properties)
+            build_prop(spec, cur)
+            return False
+        if op == "set_attr":
+            target = cur
+            names = ["author", "version"] if is_doc else ["definition", "reference"]
+            if e.get("prop") is not None and not is_doc:
+                target = the_prop()
+                names = ["definition", "reference", "unit", "value_origin"]
+                if target is None:
+                    return None
+            attr = names[e["attr"] % len(names)]
+            was_set = getattr(target, attr) not in (None, "")
+            if was_set and (grow_only or not e.get("overwrite")):
+                return None
+            setattr(target, attr, e["value"])
+            return was_set
+        if op == "rename":
+            target = cur if e.get("prop") is None else the_prop()
+            if target is None or isinstance(target, odml.doc.BaseDocument):
+                return None
+            sibs = target.parent.sections if target is cur else target.parent.properties
+            new = self.free_name(e["name"], sibs)
+            if new == target.name:
+                return None
+            target.name = new
+            return True
+        if op == "retype":
+            if is_doc or cur.type == e["type"]:
+                return None
+            cur.type = e["type"]
+            return True
+        if op == "remove_sec":
+            if is_doc:
+                return None
+            cur.parent.remove(cur)
+            return True
+        prop = the_prop()
+        if prop is None:
+            return None
+        if op == "remove_prop":
+            cur.remove(prop)
+            return True
+        vals = list(prop.values)
+        if op == "fill_values":
+            if vals:
+                return None
+            prop.values = [1, 2, 3] if prop.dtype in (None, "int", "string", "text", "float") else []
+            return False if list(prop.values) else None
+        if not vals:
+            return None
+        if op == "rev_values":
+            new = list(reversed(vals))
+        elif op == "dup_value":
+            new = vals + vals[:1]
+        else:
+            new = vals[:-1]
+        if repr(new) == repr(vals):
+            return None
+        prop.values = new
+        return True
+
+    def apply_links(self, docs, links):
+        import odml
+        n = 0
+        for ln in links:
+            src, tgt = self.resolve(docs, ln["at"]), self.resolve(docs, ln["to"])
+            if isinstance(src, odml.doc.BaseDocument) or isinstance(tgt, odml.doc.BaseDocument):
+                continue
+            if src.document is not tgt.document or src.link:
+                continue
+            a, b = src.get_path(), tgt.get_path()
+            if a == b or (a + "/").startswith(b + "/") or (b + "/").startswith(a + "/"):
+                continue
+            try:
+                src.link = b
+                n += 1
+            except Exception:
+                pass
+        return n
+
+    @staticmethod
+    def all_ids(raw_docs):
+        out = set()
+
+        def sec(x):
+            out.add(x["id"])
+            for q in x["props"]:
+                out.add(q["id"])
+            for c in x["subs"]:
+                sec(c)
+        for d in raw_docs:
+            out.add(d["id"])
+            for x in d["secs"]:
+                sec(x)
+        return out
+
+    def impl_hist(self, case):
+        import warnings
+        import rdflib
+        from rdflib import URIRef
+        from rdflib.namespace import RDF
+        from odml import format as ofmt
+        from odml.tools.rdf_converter import RDFWriter, RDFReader
+        warnings.simplefilter("ignore")
+        value_pred = str(ofmt.Property.rdf_map("value"))
+        docs = [build_doc(d) for d in case["docs"]]
+        nlinks = self.apply_links(docs, case.get("links", []))
+        kw = {"rdf_subclassing": case["subclassing"]}
+        if case["custom"]:
+            kw["custom_subclasses"] = dict(case["custom"])
+        grow_only = case["kind"] == "grow"
+        obs = {"links": nlinks, "steps": []}
+        writer = RDFWriter(docs, **kw)
+        changed = False                        # something already exported changed or went away
+        exported = False
+        prev = None
+        tmp = None
+        if any(st["entry"] == "file" or st.get("refused") == "nodir" for st in case["steps"]):
+            tmp = tempfile.mkdtemp(prefix="c10_")
+        try:
+            for k, step in enumerate(case["steps"]):
+                fmt = step["fmt"]
+                so = {"fmt": fmt, "entry": step["entry"], "edits": []}
+                obs["steps"].append(so)
+                for e in step["edits"]:
+                    try:
+                        r = self.apply_edit(docs, e, grow_only, writer)
+                    except Exception as exc:
+                        # an edit the library refuses is recorded, not judged here; outside the
+                        # grow-only histories it may have been applied half-way
+                        r = "refused:" + fw.exc_name(exc)
+                        if not grow_only and exported:
+                            changed = True
+                    so["edits"].append(r)
+                    if r is True and exported:
+                        changed = True
+                # an earlier refused call must not matter
+                if step.get("refused") == "badfmt":
+                    try:
+                        writer.get_rdf_str("bogus")
+                        so["refused"] = "accepted"
+                    except Exception as exc:
+                        so["refused"] = fw.exc_name(exc)
+                elif step.get("refused") == "nodir":
+                    try:
+                        writer.write_file(os.path.join(tmp, "missing", "dir", "out"), fmt)
+                        so["refused"] = "accepted"
+                    except Exception as exc:
+                        so["refused"] = fw.exc_name(exc)
+                    exported = True
+                if exported and nlinks:
+                    # every conversion resolves the links again: the linked copies are replaced by new
+                    # ones (new ids) and merged content may change
+                    changed = True
+                so["changed"] = changed
+                path = None
+                try:
+                    if step["entry"] == "file":
+                        base = os.path.join(tmp, "step%d" % k)
+                        writer.write_file(base, fmt)
+                        path = base + EXT[fmt]
+                        with open(path, encoding="utf-8", newline="") as fh:
+                            text = fh.read()
+                    elif step["entry"] == "convert":
+                        text = writer.convert_to_rdf().serialize(format=fmt)
+                        if isinstance(text, bytes):
+                            text = text.decode("utf-8")
+                    elif step["entry"] == "str":
+                        fmt = so["fmt"] = "turtle"
+                        text = str(writer)
+                    else:
+                        text = writer.get_rdf_str(fmt)
+                except Exception as exc:
+                    so["export_raised"] = fw.exc_name(exc)
+                    exported = True
+                    # the writer finalizes the documents first (links are resolved again); a document
+                    # that Document.finalize() itself refuses is no input of the export
+                    for d in docs:
+                        try:
+                            d.finalize()
+                        except Exception as exc2:
+                            so["finalize_raised"] = fw.exc_name(exc2)
+                    continue
+                exported = True
+                so["original_raw"] = [self.raw_doc(d) for d in docs]
+                now_ids = self.all_ids(so["original_raw"])
+                parsed = rdflib.Graph().parse(data=text, format=fmt)
+                g = canon_triples_multi(parsed, value_pred)
+                so["untyped"] = sorted(i for i in now_ids
+                                       if not list(parsed.objects(URIRef(NS + i), RDF.type)))[:5]
+                try:
+                    back = RDFReader().from_file(path, fmt) if path else RDFReader().from_string(text, fmt)
+                    so["imported_raw"] = [self.raw_doc(d) for d in back]
+                except Exception as exc:
+                    so["imported_raw"] = {"raised": fw.exc_name(exc)}
+                # the same documents through a writer of their own
+                ftext = RDFWriter(list(docs), **kw).get_rdf_str(fmt)
+                so["fresh_original_raw"] = [self.raw_doc(d) for d in docs]
+                volatile = now_ids ^ self.all_ids(so["fresh_original_raw"])
+                f = canon_triples_multi(rdflib.Graph().parse(data=ftext, format=fmt), value_pred)
+
+                def stable(t):
+                    return not any(v in t for v in volatile)
+                missing = sorted(t for t in f - g if stable(t))
+                extra = sorted(t for t in g - f if stable(t))
+                if nlinks:
+                    # the second writer has resolved the links once more: its graph is the graph of a
+                    # later state of the documents and cannot serve as the reference
+                    missing, extra = [], []
+                so["n_missing"], so["missing"] = len(missing), missing[:3]
+                so["n_extra"], so["extra"] = len(extra), extra[:3]
+                gs = canon_triples_multi(parsed, value_pred, shorten=True)
+                so["kept"] = prev is None or prev <= gs
+                prev = gs
+                if changed:
+                    try:
+                        so["fresh_imported_raw"] = [self.raw_doc(d) for d in RDFReader().from_string(ftext, fmt)]
+                    except Exception as exc:
+                        so["fresh_imported_raw"] = {"raised": fw.exc_name(exc)}
+                else:
+                    del so["fresh_original_raw"]
+        finally:
+            if tmp:
+                shutil.rmtree(tmp, ignore_errors=True)
+        return obs
+
+    # -- round 2: one reader, several imports ----------------------------------
+    def impl_rreuse(self, case):
+        import warnings
+        from odml.tools.rdf_converter import RDFWriter, RDFReader
+        warnings.simplefilter("ignore")
+        fmt = case["fmt"]
+        da = [build_doc(d) for d in case["a"]]
+        db = da if case["between"] == "same" else [build_doc(d) for d in case["b"]]
+        ta = RDFWriter(da).get_rdf_str(fmt)
+        tb = ta if db is da else RDFWriter(db).get_rdf_str(fmt)
+        obs = {"orig_a": [self.raw_doc(d) for d in da], "orig_b": [self.raw_doc(d) for d in db]}
+        tmp = tempfile.mkdtemp(prefix="c10_") if case["entry"] == "file" else None
+        try:
+            if case["entry"] == "oreader":
+                from odml.tools.odmlparser import ODMLReader
+                reader = ODMLReader("RDF", show_warnings=False)
+            else:
+                reader = RDFReader()
+
+            def load(text, name):
+                if case["entry"] == "file":
+                    path = os.path.join(tmp, name + EXT[fmt])
+                    with open(path, "w", encoding="utf-8", newline="") as fh:
+                        fh.write(text)
+                    return reader.from_file(path, fmt)
+                return reader.from_string(text, fmt)
+            try:
+                obs["first"] = [self.raw_doc(d) for d in load(ta, "a")]
+            except Exception as exc:
+                obs["first"] = {"raised": fw.exc_name(exc)}
+            if case["between"] == "garbage":
+                try:
+                    load("<<< this is no RDF in any serialisation {[ \"", "g")
+                    obs["garbage"] = "accepted"
+                except Exception as exc:
+                    obs["garbage"] = fw.exc_name(exc)
+            try:
+                obs["second"] = [self.raw_doc(d) for d in load(tb, "b")]
+            except Exception as exc:
+                obs["second"] = {"raised": fw.exc_name(exc)}
+        finally:
+            if tmp:
+                shutil.rmtree(tmp, ignore_errors=True)
+        return obs
+
+    # -- round 2: another process (locale C, ASCII default encoding, other hash seed) ----
+    def impl_proc(self, case):
+        import json
+        import subprocess
+        env = dict(os.environ)
+        env.update({"LC_ALL": "C", "LANG": "C", "PYTHONUTF8": "0", "PYTHONCOERCECLOCALE": "0",
+                    "PYTHONHASHSEED": str(case["hashseed"]), "PYTHONDONTWRITEBYTECODE": "1",
+                    "PYTHONIOENCODING": "ascii:backslashreplace",
+                    "PYTHONPATH": os.path.dirname(os.path.abspath(__file__))})
+        proc = subprocess.run([sys.executable, "-c", "import c10; c10.proc_main()"],
+                              input=json.dumps(case, ensure_ascii=True).encode("ascii"), env=env,
+                              stdout=subprocess.PIPE, stderr=subprocess.PIPE, timeout=100)
+        for line in reversed(proc.stdout.decode("ascii", "replace").split("\n")):
+            if line.startswith("C10PROC "):
+                return json.loads(line[len("C10PROC "):])
+        return {"proc_failed": proc.returncode, "stderr": proc.stderr.decode("utf-8", "replace")[-600:]}
+
+    def proc_body(self, case):
+        """runs inside the other process"""
+        import locale
+        import warnings
+        from odml.tools.rdf_converter import RDFWriter, RDFReader
+        warnings.simplefilter("ignore")
+        _quiet_terminology()
+        fmt = case["fmt"]
+        docs = [build_doc(d) for d in case["docs"]]
+        # make sure there is text outside ASCII in attributes and values
+        import odml
+        sec = odml.Section(name=case["marker"], type="marker", definition=case["marker"], parent=docs[0])
+        odml.Property(name="p", values=[case["marker"], "b"], parent=sec)
+        obs = {"encoding": locale.getpreferredencoding(False), "original_raw": [self.raw_doc(d) for d in docs]}
+        tmp = tempfile.mkdtemp(prefix="c10_")
+        try:
+            for how in ("file", "string", "save"):
+                try:
+                    if how == "file":
+                        RDFWriter(docs).write_file(os.path.join(tmp, "out"), fmt)
+                        back = RDFReader().from_file(os.path.join(tmp, "out" + EXT[fmt]), fmt)
+                    elif how == "string":
+                        back = RDFReader().from_string(RDFWriter(docs).get_rdf_str(fmt), fmt)
+                    else:
+                        from odml.validation import Validation
+                        from odml.tools.odmlparser import ODMLReader
+                        if len(docs) != 1 or any(e.is_error for e in Validation(docs[0]).errors):
+                            continue
+                        odml.save(docs[0], os.path.join(tmp, "saved"), "RDF", rdf_format=fmt)
+                        names = [n for n in os.listdir(tmp) if n.startswith("saved")]
+                        back = ODMLReader("RDF", show_warnings=False).from_file(os.path.join(tmp, names[0]), fmt)
+                    obs[how] = [self.raw_doc(d) for d in back]
+                except Exception as exc:
+                    obs[how] = {"raised": fw.exc_name(exc)}
+        finally:
+            shutil.rmtree(tmp, ignore_errors=True)
         return obs
 
     # plain public-API view of a document for the oracle (no model vocabulary)
@@ -627,8 +1237,13 @@ class C10(fw.Check):
         return bad
 
     # -- model ---------------------------------------------------------------
+    ORACLE_ONLY = ("hist", "rreuse", "proc")
+
     def model_requests(self, case, obs):
         st = case["stream"]
+        if st in self.ORACLE_ONLY:
+            # the model has no writer / reader object that lives across calls and no second process
+            return []
         if st == "format":
             return [{"op": "format", "fmt": case["fmt"], "formats": obs["formats"]}]
         if st == "custom":
@@ -647,6 +1262,8 @@ class C10(fw.Check):
     def compare(self, case, obs, answers):
         st = case["stream"]
         out = []
+        if st in self.ORACLE_ONLY:
+            return out
         if st == "format":
             if answers[0] != (obs["outcome"] == "ok"):
                 out.append("model accepts format=%s, implementation outcome=%s" % (answers[0], obs["outcome"]))
@@ -731,9 +1348,21 @@ class C10(fw.Check):
                 out.append("unsupported format %r gave %s, not ValueError" % (case["fmt"], obs["outcome"]))
             return out
         if st == "custom":
+            # (round 2) a custom map belongs to its writer: the next writer starts from the file again
+            if "after" in obs and obs["after"] != obs["yaml"]:
+                out.append("a writer created after one with a custom map does not start from the "
+                           "declared sub-classes")
             return out
+        if st == "hist":
+            return self.oracle_hist(case, obs)
+        if st == "rreuse":
+            return self.oracle_rreuse(case, obs)
+        if st == "proc":
+            return self.oracle_proc(case, obs)
         for b in obs["shape"]:
             out.append("graph shape: " + b)
+        if obs.get("files") is not None and obs["files"] != 1:
+            out.append("writing to a file left %d files" % obs["files"])
         if "graph_parsed" in obs and obs["graph_parsed"] != obs["graph"] and not obs.get("reused"):
             only_w = [t for t in obs["graph"] if t not in obs["graph_parsed"]][:2]
             only_p = [t for t in obs["graph_parsed"] if t not in obs["graph"]][:2]
@@ -752,6 +1381,80 @@ class C10(fw.Check):
         by_id = dict((d["id"], d) for d in imp)
         for d in orig:
             self.cmp_secs("Document %s" % d["id"], d["secs"], by_id[d["id"]]["secs"], out, case)
+        return out
+
+    def cmp_docs(self, orig, imp, fmt):
+        """the import clause of the property: one document per exported document, equal per id"""
+        out = []
+        if isinstance(imp, dict):
+            return ["import raised %s" % imp["raised"]]
+        if sorted(d["id"] for d in imp) != sorted(d["id"] for d in orig):
+            return ["imported %d documents for %d exported (ids differ)" % (len(imp), len(orig))]
+        by_id = dict((d["id"], d) for d in imp)
+        for d in orig:
+            self.cmp_secs("Document %s" % d["id"], d["secs"], by_id[d["id"]]["secs"], out, {"fmt": fmt})
+        return out
+
+    def oracle_hist(self, case, obs):
+        """Every export of a writer is an export of the documents as they are at that moment. Weaker
+        reading where the statement leaves room: (1) several identical value nodes per Property (one per
+        conversion) count as one; (2) after something that had already been exported was changed or
+        removed only 'nothing of the current documents is missing' is demanded of the graph, not
+        'nothing else is there' - the import clause is demanded always."""
+        out = []
+        for k, so in enumerate(obs["steps"]):
+            fails = []
+            if "export_raised" in so:
+                if so.get("finalize_raised") != so["export_raised"]:
+                    fails.append("export raised %s" % so["export_raised"])
+            else:
+                if so["n_missing"]:
+                    fails.append("the export lacks %d triples of the current documents, e.g. %s"
+                                 % (so["n_missing"], so["missing"]))
+                if so["untyped"]:
+                    fails.append("objects without a typed node in the export: %s" % so["untyped"])
+                if so["n_extra"] and not so["changed"]:
+                    fails.append("the export has %d triples that are not of the current documents, e.g. %s"
+                                 % (so["n_extra"], so["extra"]))
+                fails += self.cmp_docs(so["original_raw"], so["imported_raw"], so["fmt"])
+            out += ["%s [step %d]" % (f, k) for f in fails]
+        return out
+
+    def oracle_rreuse(self, case, obs):
+        out = []
+        for f in self.cmp_docs(obs["orig_a"], obs["first"], case["fmt"]):
+            out.append(f)
+        sec = obs["second"]
+        if isinstance(sec, dict):
+            return out + ["reader used twice: second import raised %s" % sec["raised"]]
+        want = sorted(d["id"] for d in obs["orig_b"])
+        got = sorted(d["id"] for d in sec)
+        if want != got:
+            out.append("reader used twice: second import returned %d documents for %d exported"
+                       % (len(got), len(want)))
+        # the documents of the second text that did come back are judged as usual
+        mine = [d for d in sec if d["id"] in set(want)]
+        if case["between"] == "same":
+            seen, uniq = set(), []
+            for d in mine:
+                if d["id"] not in seen:
+                    seen.add(d["id"])
+                    uniq.append(d)
+            mine = uniq
+        if sorted(d["id"] for d in mine) == want:
+            out += self.cmp_docs(obs["orig_b"], mine, case["fmt"])
+        return out
+
+    def oracle_proc(self, case, obs):
+        if "proc_failed" in obs:
+            return ["the export/import program ended with %s: %s" % (obs["proc_failed"], obs.get("stderr", "")[-300:])]
+        out = []
+        for how in ("file", "string", "save"):
+            if how not in obs:
+                continue
+            orig = obs["original_raw"][:1] if how == "save" else obs["original_raw"]
+            out += ["%s [entry %s, %s]" % (f, how, obs.get("encoding"))
+                    for f in self.cmp_docs(orig, obs[how], case["fmt"])]
         return out
 
     def cmp_secs(self, where, a, b, out, case):
@@ -788,6 +1491,56 @@ class C10(fw.Check):
                 out.append("Property value %s imported as %s (format %s)" % (fw.canon(v), fw.canon(w), case["fmt"]))
 
     def finding_key(self, case, obs, failure):
+        import re
+        st = case.get("stream")
+        fmt = case.get("fmt")
+        step = None
+        # the history / process streams mark where a failure belongs; the failure text in front of
+        # the mark is the one the one-shot stream produces and is classified the same way
+        m = re.search(r" \[(step|entry) ([^\]]*)\]$", failure)
+        if m and st in ("hist", "proc"):
+            failure = failure[:m.start()]
+            if m.group(1) == "step":
+                try:
+                    step = int(m.group(2))
+                    fmt = obs["steps"][step]["fmt"]
+                except Exception:
+                    return None
+        key = self.value_key(fmt, case, obs, failure)
+        if key is not None:
+            return key
+        if step is not None and self.stale_only(obs["steps"][step]):
+            return "reused_writer_keeps_earlier_triples"
+        if st == "rreuse" and failure.startswith("reader used twice: second import returned") \
+                and self.earlier_documents_only(case, obs):
+            return "reused_reader_returns_earlier_documents"
+        return None
+
+    def stale_only(self, so):
+        """narrow: the writer was used before, something it had exported was changed or removed since,
+        its graph still has everything of the current documents and everything it had at the previous
+        export (so all that is wrong is what it kept), and a writer of their own exports the same
+        documents faithfully"""
+        if not so.get("changed") or "export_raised" in so or so.get("n_missing") or so.get("untyped"):
+            return False
+        if not so.get("kept") or "fresh_imported_raw" not in so:
+            return False
+        rest = [f for f in self.cmp_docs(so["fresh_original_raw"], so["fresh_imported_raw"], so["fmt"])
+                if self.value_key(so["fmt"], {}, {}, f) is None]
+        return not rest
+
+    def earlier_documents_only(self, case, obs):
+        """narrow: the second call returned exactly the documents of the first call plus its own"""
+        first, second = obs.get("first"), obs.get("second")
+        if not isinstance(first, list) or not isinstance(second, list):
+            return False
+        want = sorted([d["id"] for d in first] + [d["id"] for d in obs["orig_b"]])
+        if sorted(d["id"] for d in second) != want:
+            return False
+        n = len(first)
+        return [fw.canon(d) for d in second[:n]] == [fw.canon(d) for d in first]
+
+    def value_key(self, fmt, case, obs, failure):
         import json
         import re
         m = re.match(r"Property uncertainty (.*) imported as (.*)$", failure)
@@ -798,12 +1551,12 @@ class C10(fw.Check):
                     x = float(list(a.values())[0])
                     if float(b["str"]) == x:
                         return "uncertainty_imported_as_str"
-                    if case.get("fmt") in ("turtle", "n3") and float(b["str"]) == float("%e" % x):
+                    if fmt in ("turtle", "n3") and float(b["str"]) == float("%e" % x):
                         return "turtle_n3_shorten_doubles"
             except Exception:
                 return None
             return None
-        if case.get("fmt") in ("turtle", "n3"):
+        if fmt in ("turtle", "n3"):
             m = re.match(r"Property value (.*) imported as (.*) \(format (turtle|n3)\)$", failure)
             if m:
                 try:
@@ -814,7 +1567,8 @@ class C10(fw.Check):
                 except Exception:
                     return None
                 return None
-            if failure.startswith("serialisation %s does not give back the exported graph" % case["fmt"]):
+            if case.get("stream") == "rt" and \
+                    failure.startswith("serialisation %s does not give back the exported graph" % fmt):
                 # only when every differing literal is a double shortened to 7 significant digits
                 w = [t for t in obs["graph"] if t not in obs["graph_parsed"]]
                 p = [t for t in obs["graph_parsed"] if t not in obs["graph"]]
@@ -827,11 +1581,33 @@ class C10(fw.Check):
 
     def tag(self, case, obs):
         st = case["stream"]
+        if st == "hist":
+            return ("hist:%s" % case["kind"], any(e is not None for so in obs.get("steps", [])
+                                                 for e in so.get("edits", [])) or case["kind"] == "link")
         if st != "rt":
             return (st, True)
         nontrivial = any(s.get("props") and any(p["values"] for p in s["props"])
                          for d in case["docs"] for s in d["secs"])
         return ("rt:%s:%s" % (case["fmt"], case["entry"]), nontrivial)
+
+
+def proc_main():
+    """entry of the helper process of the `proc` stream: case as JSON on stdin, observation as one
+    marked ASCII line on stdout (the library prints, so everything else is discarded)"""
+    import io
+    import json
+    case = json.loads(sys.stdin.buffer.read().decode("ascii"))
+    real = sys.stdout
+    sys.stdout = io.StringIO()
+    sys.stderr = io.StringIO()
+    try:
+        obs = C10().proc_body(case)
+    except Exception as exc:
+        import traceback
+        obs = {"harness_exception": fw.exc_name(exc), "trace": traceback.format_exc()[-1500:]}
+    sys.stdout = real
+    sys.stdout.write("\nC10PROC " + json.dumps(obs, ensure_ascii=True) + "\n")
+    sys.stdout.flush()
 
 
 if __name__ == "__main__":
